@@ -1,4 +1,5 @@
 import RsyncModel.PeerInput
+import RsyncModel.FlistTie
 import RsyncModel.RecvTie
 import RsyncModel.MapFile
 import RsyncModel.PureTie
@@ -185,5 +186,19 @@ theorem source_list_readers_total (inp : Wire.Bytes) (out : List Go.Out) :
 never panics; a declared length above `maxMessageSize` is an error before anything is allocated -/
 theorem source_read_msg_total (inp : Wire.Bytes) : Gen.Pure.ReadMsg inp ≠ .panic :=
   PeerInput.readMsg_no_panic inp
+
+/-- **No file-list input makes the source's entry decoder panic** (`receiveFileEntry`, translated): a negative
+or oversized name or link length is an error before `make`, the inherited-prefix `copy`/`b[l1:]` stay in range, a
+short input is an error — for every flag byte, previous entry, option set and byte string -/
+theorem source_entry_decoder_no_panic (o : Flist.Opts) (flags : UInt8) (last : Flist.Entry) (inp : Wire.Bytes) :
+    Gen.Pure.receiveFileEntry flags.toUInt16 inp last.name last.mtime last.mode last.uid last.gid last.rdev
+        o.uid o.gid o.links o.devices o.specials o.checksum [] 0 0 0 0 0 0 [] [] ≠ .panic :=
+  FlistTie.receiveFileEntry_no_panic o flags last inp
+
+/-- and the list loop around it (`ReceiveFileList`) ends — with the list or an error — within `len(input)+1`
+iterations on every input -/
+theorem source_list_loop_no_panic (o : Flist.Opts) (inp : Wire.Bytes) :
+    Gen.Pure.recvListLoop inp [] [] 0 0 0 0 0 o.uid o.gid o.links o.devices o.specials o.checksum ≠ .panic :=
+  FlistTie.recvListLoop_no_panic o inp
 
 end C08
